@@ -213,22 +213,159 @@ def d4(ctx, prog):
 
 
 def d6(ctx, prog):
-    f = prog.need_func(A, '_prepare_rounds')
-    cuts = [s for s in ast.walk(f.node) if isinstance(s, ast.Assign) and norm(s.targets[0]).replace(' ', '') == 'rounds[-1]' and isinstance(s.value, ast.Subscript)
-            and isinstance(s.value.slice, ast.Slice) and norm(s.value.value).replace(' ', '') == 'rounds[-1]']
-    if len(cuts) != 1:
-        ctx.undecided('C05-D6', f'{f.key}::stop point', 'truncation of the last round is not a single `rounds[-1] = rounds[-1][:...]`', f.where())
-        return
-    sl = cuts[0].value.slice
-    ok = sl.lower is None and astutil.affine(sl.upper) == {'after_step': 1, '': 1}
-    ctx.check(ok, 'C05-D6', f'{f.key}::stop point', f'the last round is cut at [:{norm(sl.upper) if sl.upper is not None else ""}], not [:after_step + 1]: the step named by after_step is not the last one applied',
-              'last round cut at [:after_step + 1] (inclusive)', f.where(cuts[0]))
-    # round selection: first, middle..., last when i == n_rounds - 1
-    txt = norm(f.node).replace(' ', '')
-    ok = 'rounds=[operations[0]]' in txt and 'foriinrange(1,at_round+1):' in txt and 'ifi==n_rounds-1:' in txt and 'rounds.append(operations[-1])' in txt and 'rounds.append(operations[1])' in txt \
-        and 'n_rounds=round_keys.shape[1]' in txt
-    ctx.pattern(ok, 'C05-D6', f'{f.key}::round selection', 'the list of rounds is no longer first + middle... + (last when i == n_rounds - 1) up to at_round inclusive',
-              'rounds = first, middle x (at_round - 1), last iff at_round is the final round', f.where())
+    """round composition for every stop point, by partial evaluation of the configuration code (sa.confinterp): encrypt / decrypt
+    are interpreted up to their call of _parametric_cipher (captured), then _prepare_rounds is interpreted for every key size
+    (11 / 13 / 15 round keys), every at_round (None and 0..Nr) and every after_step; the resulting operation sequence must be the
+    FIPS-197 Cipher / InvCipher prefix that ends at that stop point."""
+    from .. import confinterp as ci
+    m = prog.need_mod(A)
+    pr = prog.need_func(A, '_prepare_rounds')
+    pc = prog.need_func(A, '_parametric_cipher')
+    ident = prog.need_func(A, '_identity')
+    body = [s for s in ident.node.body if not (isinstance(s, ast.Expr) and isinstance(s.value, ast.Constant))]
+    ctx.check(len(body) == 1 and isinstance(body[0], ast.Return) and norm(body[0].value) == ident.params[0], 'C05-D6', f'{ident.key}::identity',
+              '_identity does not return its argument unchanged', '_identity returns its argument', ident.where())
+    steps = enumtab.enum_members(prog, A, 'Steps')
+    isteps = enumtab.enum_members(prog, A, 'InverseSteps')
+    K = lambda n: f'{A}:{n}'    # noqa: E731
+    # FIPS-197: which primitive sits at which step position, and where the standard has none
+    table = {
+        'encrypt': ({steps['SUB_BYTES']: K('sub_bytes'), steps['SHIFT_ROWS']: K('shift_rows'), steps['MIX_COLUMNS']: K('mix_columns'), steps['ADD_ROUND_KEY']: K('add_round_key')},
+                    lambda r, p, nr: (r == 0 and p != steps['ADD_ROUND_KEY']) or (r == nr and p == steps['MIX_COLUMNS'])),
+        'decrypt': ({isteps['INV_ADD_ROUND_KEY']: K('add_round_key'), isteps['INV_MIX_COLUMNS']: K('inv_mix_columns'), isteps['INV_SHIFT_ROWS']: K('inv_shift_rows'), isteps['INV_SUB_BYTES']: K('inv_sub_bytes')},
+                    lambda r, p, nr: (r == 0 and p == isteps['INV_MIX_COLUMNS']) or (r == nr and p != isteps['INV_ADD_ROUND_KEY'])),
+    }
+    n = 0
+    for fname in ('encrypt', 'decrypt'):
+        f = prog.need_func(A, fname)
+        prims, absent = table[fname]
+        it = ci.Interp(prog)
+        captured = []
+        pcsym = it.module_value(m, '_parametric_cipher')
+
+        def stub(args, kwargs, captured=captured):
+            captured.append((args, kwargs))
+            return ci.Sym('ciphertext')
+        orig_call = it.call
+
+        def call(func, args=(), kwargs=None, selfobj=None, depth=0, orig_call=orig_call, stub=stub):
+            if func is pc:
+                return stub(args, kwargs or {})
+            return orig_call(func, args, kwargs, selfobj, depth)
+        it.call = call
+        bad = []
+        configs = 0
+        try:
+            for nrk in (11, 13, 15):
+                nr = nrk - 1
+                rk = ci.Obj(shape=(ci.Sym('n_keys'), nrk, 16))
+                for ar in [None] + list(range(nrk)):
+                    for stp in [None] + list(range(4)):
+                        captured.clear()
+                        kw = {f.params[0]: ci.Sym('state'), 'key': ci.Sym('key')}
+                        if ar is not None:
+                            kw['at_round'] = ar
+                        if stp is not None:
+                            kw['after_step'] = stp
+                        orig_call(f, (), kw)
+                        if len(captured) != 1:
+                            raise ci.Unknown(f'{fname} does not call _parametric_cipher exactly once')
+                        cargs, ckw = captured[0]
+                        if cargs or ckw.get('at_round') != ar:
+                            bad.append(f'{fname}(at_round={ar}) hands at_round={ckw.get("at_round")} to the cipher')
+                            continue
+                        eff_step = ckw.get('after_step')
+                        if stp is not None and eff_step != stp:
+                            bad.append(f'{fname}(after_step={stp}) hands after_step={eff_step} to the cipher')
+                            continue
+                        if stp is None and eff_step != 3:
+                            bad.append(f'default after_step of {fname} is {eff_step}: a default call does not run the last step of the last round')
+                            continue
+                        want_mode = 'decrypt' if fname == 'decrypt' else 'encrypt'
+                        mode_default = next((const_value(d) for p_, d in zip(reversed(pc.params), reversed(pc.node.args.defaults)) if p_ == 'mode'), None)
+                        if ckw.get('mode', mode_default) != want_mode:
+                            bad.append(f'{fname} runs the cipher in mode {ckw.get("mode", mode_default)!r}')
+                            continue
+                        try:
+                            rounds = orig_call(pr, (), dict(round_keys=rk, at_round=ar, after_step=eff_step, operations=ckw.get('operations')))
+                        except ci.Raised as e:
+                            if ar == nrk - 1 + 1:
+                                continue
+                            bad.append(f'{fname}: at_round={ar}, after_step={eff_step} with {nrk} round keys is refused ({e.kind})')
+                            continue
+                        configs += 1
+                        r_stop = nr if ar is None else ar
+                        got = [[(o.name if isinstance(o, ci.Sym) else repr(o)) for o in ops] for ops in rounds]
+                        exp = []
+                        for r in range(r_stop + 1):
+                            last_pos = eff_step if r == r_stop else 3
+                            exp.append([(ident.key if absent(r, p, nr) else prims[p]) for p in range(last_pos + 1)])
+                        if got != exp:
+                            # first difference
+                            d = next((r for r in range(max(len(got), len(exp))) if r >= len(got) or r >= len(exp) or got[r] != exp[r]), 0)
+                            bad.append(f'{fname} with {nrk} round keys stopped at (at_round={ar}, after_step={eff_step}): {len(got)} rounds, round {d} = '
+                                       f'{[x.split(":")[-1] for x in got[d]] if d < len(got) else "missing"}; FIPS-197 prefix has {len(exp)} rounds, round {d} = '
+                                       f'{[x.split(":")[-1] for x in exp[d]] if d < len(exp) else "none"}')
+            key = f'{f.key}::round composition'
+            n += configs
+            if it.template_writes:
+                o, node = it.template_writes[0]
+                ctx.fail('C05-D6', f'{pr.key}::shared round list', f'the stop-point surgery writes into the shared list {o} (`{norm(node)[:60]}`): later calls see a modified cipher', pr.where(node))
+            if bad:
+                ctx.fail('C05-D6', key, f'{bad[0]} ({len(bad)} stop points differ)', f.where(), differing=len(bad))
+            else:
+                ctx.ok('C05-D6', key, f'{configs} stop points (3 key sizes x at_round None/0..Nr x after_step default/0..3): the operation sequence is the FIPS-197 '
+                       f'{"InvCipher" if fname == "decrypt" else "Cipher"} prefix ending at that step', f.where(), stop_points=configs)
+        except ci.Unknown as e:
+            ctx.undecided('C05-D6', f'{f.key}::round composition', f'configuration code not evaluable: {e}', f.where())
+    # the driver hands the stop point over unchanged
+    calls = [c for c in ast.walk(pc.node) if isinstance(c, ast.Call) and norm(c.func) == '_prepare_rounds']
+    ok = len(calls) == 1
+    if ok:
+        amap = {}
+        for i_, a in enumerate(calls[0].args):
+            amap[pr.params[i_]] = norm(a)
+        for k in calls[0].keywords:
+            amap[k.arg] = norm(k.value)
+        ok = amap.get('at_round') == 'at_round' and amap.get('after_step') == 'after_step' and amap.get('operations') == 'operations' and amap.get('round_keys') == 'round_keys'
+    ctx.check(ok, 'C05-D6', f'{pc.key}::stop point hand-over', '_parametric_cipher does not pass at_round / after_step / operations / round_keys to _prepare_rounds unchanged',
+              'stop point and operation lists handed to _prepare_rounds unchanged', pc.where())
+    return n
+
+
+def buffer_dtypes(ctx, prog, modname, rule):
+    """every array allocated in a cipher module has a dtype fixed by the module (an explicit unsigned/integer literal dtype),
+    never one inherited from the caller's array: table outputs (0..255) stored into an int8 buffer wrap"""
+    n = 0
+    for f in prog.funcs_in(modname):
+        for c in ast.walk(f.node):
+            if not (isinstance(c, ast.Call) and isinstance(c.func, ast.Attribute)):
+                continue
+            d = prog.dotted(f.mod, c.func) or ''
+            name = d.split('.')[-1]
+            if not d.startswith('numpy') or name not in ('empty', 'zeros', 'ones', 'full', 'empty_like', 'zeros_like', 'ones_like', 'full_like'):
+                continue
+            n += 1
+            dt = next((k.value for k in c.keywords if k.arg == 'dtype'), None)
+            if dt is None and not name.endswith('_like') and len(c.args) >= (3 if name == 'full' else 2):
+                dt = c.args[2 if name == 'full' else 1]
+            key = f'{f.key}::{norm(c)[:80]}'
+            if dt is None:
+                if name.endswith('_like'):
+                    ctx.fail(rule, key, f'`{norm(c)[:60]}` takes the dtype of its argument: with a signed byte (int8) state the table outputs 128..255 wrap', f.where(c))
+                else:
+                    ctx.fail(rule, key, f'`{norm(c)[:60]}` has no dtype (float64): the state is not a byte array any more', f.where(c))
+                continue
+            txt = norm(dt).strip('\'"').split('.')[-1]
+            if txt in ('uint8', 'uint16', 'uint32', 'uint64', 'int16', 'int32', 'int64'):
+                ctx.ok(rule, key, f'buffer dtype fixed to {txt}', f.where(c))
+            elif txt == 'dtype' or 'dtype' in norm(dt):
+                ctx.fail(rule, key, f'`{norm(c)[:60]}` takes its dtype from another array (`{norm(dt)}`): a signed byte state makes table outputs wrap', f.where(c))
+            elif txt == 'int8':
+                ctx.fail(rule, key, 'an int8 buffer cannot hold byte values 128..255', f.where(c))
+            else:
+                ctx.undecided(rule, key, f'dtype `{norm(dt)}` not understood', f.where(c))
+    return n
 
 
 def run(ctx, prog):
@@ -237,13 +374,15 @@ def run(ctx, prog):
     ctx.rule('C05-D3', 'MixColumns / InvMixColumns dependency relation is the FIPS circulant; applied per column')
     ctx.rule('C05-D4', 'round operation lists, enums, first/last variants, key direction and round-key index')
     ctx.rule('C05-D5', 'no in-place effect reaches a caller-owned array')
-    ctx.rule('C05-D6', 'inclusive stop point and round selection')
-    ctx.assume('the composition over rounds for every (at_round, after_step) and the four broadcasting shapes is the run of the list surgery on run-time integers: ingredients are decided, not the run')
+    ctx.rule('C05-D6', 'round composition: for every key size, at_round (None, 0..Nr) and after_step (default, 0..3) the operation sequence produced by the configuration code (partially evaluated, cipher data opaque) is the FIPS-197 Cipher / InvCipher prefix ending at that step; shared round lists are never written')
+    ctx.assume('the four broadcasting shapes (one/many states x one/many keys) are numpy broadcasting at run time and are not decided')
     n1 = d1(ctx, prog)
     d2(ctx, prog)
     d3(ctx, prog)
     d4(ctx, prog)
     n5 = ownership(ctx, prog, A, 'C05-D5')
-    d6(ctx, prog)
+    n6 = d6(ctx, prog)
+    ctx.floor('buffer allocations judged (aes)', buffer_dtypes(ctx, prog, A, 'C05-D2'), 6)
+    ctx.floor('stop points composed (aes)', n6, 2 * 3 * 12 * 5)
     ctx.floor('table entries compared', n1, 256 * 8 + 32 + 10)
     ctx.floor('in-place effects judged (aes)', n5, 8)
